@@ -153,7 +153,8 @@ def check_C12(ctx):
                                  "edge incidences after re-enabling: exact membership proved; the subsequent rotational re-ordering is C09"])
 
 def check_C04(ctx):
-    kernel_property(ctx, "C04", "Props/Properties_C04.v", ["valid", "swaps"], {"GC", "EnDef", "StatusGC"},
+    os.environ["KGEN_STATUSGC"] = "1"     # the valid/swaps profiles then also call StatusAttrib::garbage_collection
+    kernel_property(ctx, "C04", "Props/Properties_C04.v", ["gc", "valid", "gc", "swaps"], {"GC", "EnDef", "StatusGC"},
                     assumptions=["proved: counters/modes/sizes after collection in every state; 'the logical mesh is unchanged' and handle tracking are tied by lock step "
                                  "(incl. StatusAttrib::garbage_collection with tracking and the manifoldness option) and decided on the real library by the identity-token oracle"])
 
